@@ -715,7 +715,7 @@ class Engine(Conc, Executor, Calls):
             # non-nil and promised (a value is there, or is delivered by a goroutine / timer without further input)
             o = self.obl("blocking", "prompt", pr[0].tags or None)
             o.instances += 1
-            if any(d == "recv" and self.is_promised(st, ch) for (d, ch) in chans):
+            if any(d == "sleep" or (d == "recv" and self.is_promised(st, ch)) for (d, ch) in chans):
                 o.proved += 1
             else:
                 o.failed.append({"pos": ins.get("pos"), "model": first_model(st), "reason": "waits on %s: no case is a receive from a channel that is non-nil and has a value promised" % (
